@@ -20,7 +20,7 @@ RULE = ('cases = (state kind, n, ascending qubit subset, seed): every non-empty 
 EXHAUSTIVE = {'quick': True, 'thorough': True}
 EXHAUSTIVE_DOMAINS = {'quick': ['all 2^n-1 non-empty ascending subsets for n=1..5 (57)'],
                       'thorough': ['all 2^n-1 non-empty ascending subsets for n=1..6 (120)']}
-ASSUMPTIONS = ['input states are normalised complex128/float64 vectors (numpy Generator.choice requires probabilities summing to 1)',
+ASSUMPTIONS = ['input states are normalised vectors of dtype complex128/float64 or complex64/float32 (tolerances scale with the input precision)',
                'qubit 0 is the most significant bit; the first measured qubit is the first character of the bit string']
 DECIDING = ['numqi.sim.state.measure_quantum_vector', 'MeasureGate.forward', 'remeasure']
 
@@ -54,6 +54,8 @@ def install(ctx, numqi):
         n = int(round(np.log2(q0.size)))
         if n > 12:
             return
+        single = q0.dtype in (np.float32, np.complex64)
+        T = 2e-6 if single else 1e-12  # tolerances scale with the precision of the input state
         res = c.result
         ok = isinstance(res, tuple) and len(res) == 3
         ctx.check(ok, 'measure/result-form', 'measure_quantum_vector must return (bitstr, prob, state)', {'type': str(type(res))})
@@ -64,9 +66,10 @@ def install(ctx, numqi):
         q2 = to_numpy(q2)
         ref_p = rq.born_marginal(q0, index, n)
         wit = {'n': n, 'index': index}
-        if not ctx.close(prob, ref_p, 1e-12, 'measure/born-marginal', 'reported probabilities differ from the Born marginals', wit):
+        if not ctx.close(prob, ref_p, T, 'measure/born-marginal', 'reported probabilities differ from the Born marginals', wit):
             return
-        ctx.check(prob.min() >= 0 and abs(prob.sum() - 1) < 1e-10, 'measure/prob-normalised', 'probabilities are not a distribution', wit)
+        ctx.check(prob.min() >= 0 and abs(prob.sum() - 1) < max(1e-10, 10 * T), 'measure/prob-normalised', 'probabilities are not a distribution (negative entry or sum != 1)',
+                  lambda: {**wit, 'min': float(prob.min()), 'sum': float(prob.sum())})
         okb = isinstance(bitstr, (list, tuple)) and len(bitstr) == len(index) and all(int(b) in (0, 1) for b in bitstr)
         ctx.check(okb, 'measure/bitstr-form', 'bit string must have one bit per measured qubit', {**wit, 'bitstr': bitstr})
         if not okb:
@@ -80,9 +83,9 @@ def install(ctx, numqi):
         if p <= 1e-14:
             return
         ref_q = rq.project(q0, index, bits, n) / np.sqrt(p)
-        ctx.close(q2, ref_q, 1e-11 / np.sqrt(p) + 1e-12, 'measure/post-state', 'post-measurement state is not the normalised projection onto the outcome',
+        ctx.close(q2, ref_q, 10 * T / np.sqrt(p) + T, 'measure/post-state', 'post-measurement state is not the normalised projection onto the outcome',
                   {**wit, 'bitstr': bits, 'p': float(p)})
-        ctx.check(abs(np.linalg.norm(q2) - 1) < 1e-9, 'measure/post-state-norm', 'post-measurement state is not normalised', {**wit, 'norm': float(np.linalg.norm(q2))})
+        ctx.check(abs(np.linalg.norm(q2.astype(np.complex128)) - 1) < max(1e-9, 100 * T), 'measure/post-state-norm', 'post-measurement state is not normalised', {**wit, 'norm': float(np.linalg.norm(q2))})
         ctx.check(np.array_equal(to_numpy(c.args[0]), q0), 'measure/input-modified', 'measure_quantum_vector modified its input', wit)
         state['outcomes_seen'].setdefault((q0.tobytes(), index), set()).add(o)
         # re-measure with the unwrapped original, two different seeds: same outcome with certainty, state unchanged
@@ -96,8 +99,8 @@ def install(ctx, numqi):
             onehot[o] = 1
             ctx.check([int(x) for x in b2] == bits, 'remeasure/outcome-changed', 'measuring the same qubits again gave a different outcome',
                       {**wit, 'first': bits, 'second': [int(x) for x in b2]}, point='remeasure')
-            ctx.close(p2, onehot, 1e-9, 'remeasure/not-certain', 're-measurement probabilities are not one-hot on the first outcome', wit)
-            ctx.close(q3, q2, 1e-9, 'remeasure/state-changed', 're-measurement changed the state', wit)
+            ctx.close(p2, onehot, max(1e-9, 100 * T), 'remeasure/not-certain', 're-measurement probabilities are not one-hot on the first outcome', wit)
+            ctx.close(q3, q2, max(1e-9, 100 * T), 'remeasure/state-changed', 're-measurement changed the state', wit)
 
     ctx.attach(S, 'measure_quantum_vector', post=post, pre=pre)
 
@@ -161,7 +164,22 @@ def make_states(rng, n):
     t = rq.rand_state(rng, d)
     t[1:] *= 1e-4
     out.append(('tiny-amplitudes', t / np.linalg.norm(t)))
-    return out
+    # single precision: the same kinds as complex64 (and the real one as float32), normalised in that precision
+    single = []
+    for kind, psi in out:
+        if kind == 'tiny-amplitudes':
+            continue
+        x = psi.astype(np.float32 if kind == 'real' else np.complex64)
+        x = x / np.linalg.norm(x)
+        single.append((kind + '/single-precision', x))
+    # a product state phi (x) |0..0>: many zero-probability outcomes, in single precision (rounding residues must not become
+    # negative probabilities)
+    if n >= 2:
+        k = int(rng.integers(1, n))
+        phi = rq.rand_state(rng, 2**k).astype(np.complex64)
+        x = np.kron(phi / np.linalg.norm(phi), np.eye(1, 2**(n - k), 0, dtype=np.complex64)[0])
+        single.append(('product-with-zeros/single-precision', (x / np.linalg.norm(x)).astype(np.complex64)))
+    return out + single
 
 
 def run_subsets(ctx, numqi, st, n):
